@@ -18,12 +18,16 @@ PROPS["C10"] = dict(
           "RetransmitMult 0-4, started from a zero-value queue, compared after every step with a list-based reference "
           "model (NumQueued, Finished() count per broadcast, exact selection by pointer identity, size budget, one per name) "
           "and drained at the end; one broadcast in six carries a completion callback that, while it is still running, lets another goroutine call QueueBroadcast(same name) / Reset / Prune "
-          "(2 ms are given): the queue must behave as if that call came after the operation that ran the callback; non-trivial = an enqueue after some item was re-inserted below its limit, or equal-length "
+          "(2 ms are given): the queue must behave as if that call came after the operation that ran the callback; concurrent use: 2-4 goroutines run 1-6 operations each on one queue, "
+          "20-200 times per plan (also under the race detector): no completion callback runs twice, NumQueued() at quiescence equals the number of broadcasts that have not completed, one per name, no retrieval "
+          "returns a broadcast twice or exceeds its limit, Reset completes the rest; non-trivial = an enqueue after some item was re-inserted below its limit, or equal-length "
           "items coexisting, or Prune/Reset called; distinct = distinct operation sequences (hash of the plan)"),
     tests=[
         dict(name="model", run="^TestQueueModel$",
              quick=dict(shards=8, checks=15000, timeout=300),
              thorough=dict(shards=16, checks=400000, timeout=1800)),
+        dict(name="conc", run="^TestQueueConcurrent$", quick=dict(shards=2, checks=150, timeout=600), thorough=dict(shards=4, checks=6000, timeout=1800)),
+        dict(name="conc-race", run="^TestQueueConcurrent$", race=True, quick=dict(shards=2, checks=40, timeout=900), thorough=dict(shards=4, checks=1500, timeout=1800)),
     ],
     required_labels=dict(both=["TestQueueModel/enqueue-after-reinsert", "TestQueueModel/equal-length-coexist",
                                "TestQueueModel/prune", "TestQueueModel/reset", "TestQueueModel/emptied-by-get",
